@@ -83,9 +83,12 @@ def run(tier, seed):
             cur[p] = nd
             t, _ = nd.render()
             tid = declare(cases, t)
-            if rng.random() < 0.3:
+            if not nd.broken and rng.random() < 0.3:
                 # the document is closed and opened again with the next text (its cache entry is
-                # dropped in between): still the same "current contents", so the same answers
+                # dropped in between): still the same "current contents", so the same answers.
+                # (Only with a next text that parses: closing discards the buffer, so for a document
+                # re-opened in a state that does not parse the last valid contents are the file on
+                # disk, not the closed buffer the twin is fed.)
                 cases.op("close", p)
                 r.stats["reopen_steps"] = r.stats.get("reopen_steps", 0) + 1
             cases.op("analyze", p, tid)
